@@ -21,7 +21,10 @@
          for i, batch := range batches { if len(batch.proposals) == 0 { continue } ... i := i; b := batch
            p.Go(func() { ProposalsHash(b.proposals); sessionID := fmt.Sprintf("%s-%d", messageID, i) ... }) }
          one goroutine per non-empty batch; what it hashes / signs and the session id it signs under
-         are those of ITS batch and ITS position, whenever it gets to run *)
+         are those of ITS batch and ITS position, whenever it gets to run
+     all three executors: every proposal's executed status is looked up first (IsProposalExecuted /
+         PropStatus); a look-up error fails Execute before any session exists (section "executors: the
+         executed-status look-ups of ONE relayer may fail" below) *)
 From Coq Require Import List ZArith NArith Bool String Ascii DecimalString.
 Import ListNotations.
 From SygmaV Require Import Model.C05 Lib.C14_Dec.
@@ -212,3 +215,112 @@ Fixpoint bgroups_eqb (a b : list (list N * option N)) : bool :=
    exactly the per-resource groups, each with its own resource. *)
 Definition bexec_ok (props : list (N * N)) (runs : list (list (list N * option N))) : bool :=
   forallb (fun r => bgroups_eqb r (bexec_spec props)) runs.
+
+(* ---- executors: the executed-status look-ups of ONE relayer may fail ---------------------------------- *)
+
+(* chains/evm/executor/executor.go  proposalBatches      isExecuted, err := e.bridge.IsProposalExecuted(p)
+                                                           if err != nil { return nil, err }   -> Execute fails
+   chains/substrate/executor/executor.go  Execute        the same loop: if err != nil { return err }
+   chains/btc/executor/executor.go  proposalsForExecution  executed, err := e.isExecuted(prop)
+                                                           if err != nil { return props, err } -> Execute fails
+   Every proposal of the delivery is looked up once, in delivery order; a proposal the destination reports
+   as executed is left out; the first look-up that fails ends Execute before any session is started.
+   (The EVM loop packs the batches while it looks up; packing does not influence the look-ups and the
+   batches of a failed loop are dropped, so "look up, then pack" is the same function.)
+
+   A delivery entry: the proposal, whether the destination chain reports it executed (chain data, the
+   same for every relayer), whether THIS relayer's look-up of that status fails (a transient fault of
+   its own RPC connection / store). *)
+Section Lookups.
+  Context {A : Type}.
+
+  Definition looked : Type := (A * bool * bool)%type.
+
+  (* None: some look-up failed - Execute returns the error; Some l: the proposals left to execute *)
+  Fixpoint pending_of (ps : list looked) : option (list A) :=
+    match ps with
+    | [] => Some []
+    | (a, ex, f) :: r =>
+        if f then None else
+        match pending_of r with
+        | None => None
+        | Some l => Some (if ex then l else a :: l)
+        end
+    end.
+
+  (* the delivery as chain data (proposal, executed) seen by a relayer whose look-ups fail at the
+     positions marked in [mask] (missing entries: no fault) *)
+  Fixpoint mark (d : list (A * bool)) (mask : list bool) : list looked :=
+    match d with
+    | [] => []
+    | (a, ex) :: r => (a, ex, match mask with f :: _ => f | [] => false end) :: mark r (tl mask)
+    end.
+End Lookups.
+
+(* EVM: a pending proposal = deposit nonce and the gasLimit of its metadata, if any *)
+Definition two64 : N := 18446744073709551616.
+Definition w64 (x : N) : N := (x mod two64)%N.
+
+Definition evm_prop_gas (tg : N) (p : N * option N) : N :=
+  match snd p with Some l => w64 (l + tg) | None => tg end.
+
+(* proposalBatches over the pending proposals: `if currentBatch.gasLimit+propGasLimit >= transactionMaxGas`
+   a new batch is opened, then the proposal and its gas go into the current batch (uint64 arithmetic) *)
+Fixpoint evm_pack_from (cap tg : N) (ps : list (N * option N)) (done : list (list N)) (cur : list N) (gas : N)
+  : list (list N) :=
+  match ps with
+  | [] => rev (cur :: done)
+  | p :: r =>
+      let g := evm_prop_gas tg p in
+      if (cap <=? w64 (gas + g))%N
+      then evm_pack_from cap tg r (cur :: done) [fst p] (w64 (0 + g))
+      else evm_pack_from cap tg r done (cur ++ [fst p]) (w64 (gas + g))
+  end.
+
+Definition evm_pack (cap tg : N) (ps : list (N * option N)) : list (list N) := evm_pack_from cap tg ps [] [] 0%N.
+
+(* the sessions Execute starts on a relayer: members -> session id *)
+Definition evm_exec (mid : string) (cap tg : N) (ps : list (@looked (N * option N))) : list (list N * list string) :=
+  match pending_of ps with
+  | None => []
+  | Some l => evm_sessions mid (evm_pack cap tg l)
+  end.
+
+(* Substrate: one session, named by the message id, over all pending proposals *)
+Definition sub_exec (mid : string) (ps : list (@looked N)) : list (list N * list string) :=
+  match pending_of ps with
+  | None | Some [] => []
+  | Some l => [(l, [session_id_sub mid])]
+  end.
+
+(* Bitcoin: one group (one session <message id>-<resource id>) per resource of the pending proposals *)
+Definition btc_exec (ps : list (@looked (N * N))) : list (list N * option N) :=
+  match pending_of ps with
+  | None => []
+  | Some l => bexec_spec l
+  end.
+
+Definition sess1_eqb (a b : list N * list string) : bool := nl_eqb (fst a) (fst b) && sl_eqb (snd a) (snd b).
+
+Definition bgroup1_eqb (a b : list N * option N) : bool :=
+  nl_eqb (fst a) (fst b)
+  && match snd a, snd b with Some x, Some y => N.eqb x y | None, None => true | _, _ => false end.
+
+(* THE judge of the faulty-relayer cases.  [ref] = what the fault-free relayer did for the delivery,
+   [runs] = what relayers with failing look-ups did for the same delivery: every session / group any of
+   them started is one of the fault-free peer's - the same members under the same session id.  (A
+   relayer that starts fewer sessions, or none, derives no identifier that differs from its peers'.) *)
+Definition faulty_ok {X : Type} (eqb : X -> X -> bool) (ref : list X) (runs : list (list X)) : bool :=
+  forallb (fun run => forallb (fun s => existsb (eqb s) ref) run) runs.
+
+(* NOT the code: the variant in which a failed look-up is logged and the proposal skipped like an executed
+   one (the rest of the delivery is packed and signed).  Kept to state what goes wrong with it
+   (C19_evm_skip_failed_lookup_refuted). *)
+Fixpoint skip_pending_of {A : Type} (ps : list (@looked A)) : list A :=
+  match ps with
+  | [] => []
+  | (a, ex, f) :: r => if f || ex then skip_pending_of r else a :: skip_pending_of r
+  end.
+
+Definition skip_evm_exec (mid : string) (cap tg : N) (ps : list (@looked (N * option N))) : list (list N * list string) :=
+  evm_sessions mid (evm_pack cap tg (skip_pending_of ps)).
